@@ -36,10 +36,14 @@ class HashLM:
         self.seed = seed
         self.n = n_chars
         self.calls = 0
+        self.harsh = seed % 5 == 0
 
     def score(self, prefix, c):
         key = tuple(int(x) if isinstance(x, (int, np.integer)) else x for x in prefix)
         d = hashlib.sha256(("%d|%r|%r" % (self.seed, key, c)).encode()).digest()
+        if self.harsh and d[7] < 40:
+            # a very sure LM: about one (context, symbol) pair in six is all but ruled out (log-probability -80 ... -300)
+            return -80.0 - 220.0 * (int.from_bytes(d[:6], "big") / float(1 << 48))
         return -6.0 * (int.from_bytes(d[:6], "big") / float(1 << 48))
 
     def initial_h(self, batch_size):
